@@ -10,18 +10,19 @@ MC_RecTtls == {1, 4, 9}
 MCV_RRV   == AllRRV
 MCV_SIGV  == AllSIGV
 MCV_KEYV  == AllKEYV
-MCV_Args  == SingleVariantArgs
+MCV_Args  == PropertyArgs
 MCV_Starts == 0..31
 MCV_Steps == {1}
 
 \* histories: time passing between calls, a small set of arguments that share or nearly
 \* share cache keys
-MCH_RRV   == {"genuine", "rdataBit", "rdataNameCase"}
-MCH_SIGV  == {"genuine", "exp"}
-MCH_KEYV  == {"genuine", "otherKey"}
+MCH_RRV   == {"genuine", "rdataBit", "rdataNameCase", "addOtherClass"}
+MCH_SIGV  == {"genuine", "exp", "forged"}
+MCH_KEYV  == {"genuine", "otherKey", "childKey"}
 G(t)      == [rr |-> "genuine", sig |-> "genuine", key |-> "genuine", rttl |-> t]
 MCH_Args  == {G(1), G(4), G(9), [G(4) EXCEPT !.rr = "rdataNameCase"], [G(4) EXCEPT !.rr = "rdataBit"],
-              [G(9) EXCEPT !.sig = "exp"], [G(4) EXCEPT !.key = "otherKey"]}
+              [G(9) EXCEPT !.sig = "exp"], [G(4) EXCEPT !.key = "otherKey"], [G(9) EXCEPT !.rr = "addOtherClass"],
+              [G(4) EXCEPT !.sig = "forged", !.key = "childKey"]}
 MCH_Starts == {29, 30, 1, 5, 6}
 MCH_Steps == {1, 3, 8}
 \* three calls
